@@ -155,9 +155,45 @@ def history_run(holder: Any, evs: list[Any]) -> Any:
         V.forget_temp_table()
 
 
+def later(evs: list[Any]) -> list[Any]:
+    """the same spans, recorded after everything in the first files"""
+    out = []
+    for e in evs:
+        e2 = e.model_copy()
+        e2.start_timestamp = e.start_timestamp + 30 * MIN
+        e2.end_timestamp = e.end_timestamp + 30 * MIN
+        out.append(e2)
+    return out
+
+
+def same_holder_run(holder: Any, a: list[Any], b: list[Any]) -> Any:
+    """one holder object: save the first files, clean, save later files, then select unique graphs"""
+    V.forget_temp_table()
+    try:
+        with holder:
+            for e in a:
+                holder.save_data(e.model_copy())
+        holder.remove_inconsistent_jobs()
+        holder.remove_jobs_outside_of_time_window()
+        holder.update_job_names_by_root_span()
+        with holder:
+            for e in b:
+                holder.save_data(e.model_copy())
+        return holder.find_unique_graphs()
+    except Exception as e:  # noqa
+        return f"run raised {type(e).__name__}: {str(e)[:200]}"
+    finally:
+        V.forget_temp_table()
+
+
 def history_model(c: dict[str, Any], keep: list[Any]) -> Optional[str]:
     a, b = history_data(keep)
     store = M.Store()
+    if c.get("same_holder"):
+        b = later(b)
+        got = same_holder_run(V.model_holder(store, c["batch"], 0), a, b)
+        rows = [dict(r) for r in store.tables["nodes"]]
+        return untraced(lambda: judge(rows, got))
     for k, evs in enumerate((a, b)):
         store.drop_temporaries()
         got = history_run(V.model_holder(store, c["batch"], 1), evs)
@@ -174,6 +210,14 @@ def history_real(c: dict[str, Any], keep: list[int]) -> Optional[str]:
     a, b = history_data(keep)
     tmp = tempfile.mkdtemp(prefix="c09_")
     try:
+        if c.get("same_holder"):
+            b = later(b)
+            h = V.real_holder(c["batch"], 0, f"sqlite:///{tmp}/db.sqlite")
+            got = same_holder_run(h, a, b)
+            rows = [dict(zip(M.NODE_COLS[1:], n)) for n in V.dump_real(h)["nodes"]]
+            h.session.close()
+            h.engine.dispose()
+            return judge(rows, got)
         for k, evs in enumerate((a, b)):
             h = V.real_holder(c["batch"], 1, f"sqlite:///{tmp}/db.sqlite")
             got = history_run(h, evs)
